@@ -72,7 +72,7 @@ def prepare(tier: str) -> None:
 def describe() -> dict:
     return {
         "rule": (
-            "one evaluation = one batch (<= 28 cases (model, snippets variant, target) of the "
+            "one simulated run = one batch (<= 28 cases (model, snippets variant, target) of the "
             "corpus incl. rejected models, or one aas_core_meta.v3 x target case) executed in "
             "3 (quick) / 12 (thorough) fresh interpreters that differ in PYTHONHASHSEED, heap "
             "junk, snippets listing order, output-dir location (plain/deep/space+unicode/"
@@ -289,6 +289,7 @@ def execute(plan: dict) -> dict:
     for idx, case in enumerate(plan["cases"]):
         rs = [r[str(idx)] for r in all_res]
         stats["case_executions"] = stats.get("case_executions", 0) + len(rs)
+        stats["evaluations"] = stats.get("evaluations", 0) + len(rs)
         stats["seam_steps"] = stats.get("seam_steps", 0) + sum(r.get("listed", 0) for r in rs)
         for r in rs:
             stats[f"probe:loc_{r['loc']}"] = stats.get(f"probe:loc_{r['loc']}", 0) + 1
